@@ -434,4 +434,28 @@ C06(pre, step, post, out) ==
      \cup Tag(\A i \in 1..Len(out) : out[i].k = "guard" =>
                  \E g \in DOMAIN gv : (out[i].b = "T") = (gv[g] = "T") , "hook_result")
 
+--------------------------------------------------------------------------
+(* C13 -- every macrostep terminates; the bound cuts runaway chains only      *)
+
+CutKinds == {"cut_drain", "cut_raise", "cut_always", "cut_actions"}
+CountK(out, k) == Cardinality({i \in 1..Len(out) : out[i].k = k})
+
+C13(pre, step, post, out) ==
+  LET cuts == {i \in 1..Len(out) : out[i].k \in CutKinds}
+      nEvents == CountK(out, "event")
+      nRounds == Cardinality({i \in 1..Len(out) : out[i].k = "select" /\ out[i].b = "settle" /\ out[i].c # {}})
+      sent == IF step.op = "batch" THEN step.evs ELSE IF step.op = "send" THEN <<step.ev>> ELSE <<>>
+      sentSet == {sent[i] : i \in 1..Len(sent)}
+      processedSent == Cardinality({i \in 1..Len(out) : out[i].k = "event" /\ out[i].a \in sentSet})
+  IN Tag(post.err = NoErr \/ post.err[1] # "Diverged", "terminates")
+     \cup Tag(cuts # {} => (post.status \in {"running", "done"} /\ Legal(post.config)), "cut_leaves_legal")
+     \* a chain shorter than the bound runs to its natural end
+     \* a chain is never cut before it reached the configured length
+     \cup Tag((\E i \in cuts : out[i].k \in {"cut_drain", "cut_raise"}) => nEvents >= D.maxIter, "cut_too_early")
+     \cup Tag((\E i \in cuts : out[i].k = "cut_always") => nRounds >= D.maxIter, "cut_too_early_always")
+     \* the bound never discards events sent from outside
+     \cup Tag((pre.status = "running" /\ post.status = "running" /\ post.err = NoErr
+               /\ \A i \in 1..Len(out) : out[i].k # "loop_error")
+                 => processedSent >= Len(sent), "external_event_discarded")
+
 =============================================================================
